@@ -397,8 +397,8 @@ def filter_seq(seq, mask):
             z3.ForAll([j], z3.Implies(z3.And(j >= 0, j < n, m(j)), z3.And(n2 > 0, sig(0) <= j, inv(j) >= 0, inv(j) < n2, sig(inv(j)) == j))),
             z3.Implies(n2 > 0, z3.And(sig(0) >= 0, sig(0) < n, m(sig(0)))),
         ))
-        memo[key] = (sig, SV(n2))
-    sig, n2 = memo[key]
+        memo[key] = (sig, SV(n2), seq.root)  # the root is kept alive so that its id() cannot be recycled while the memo exists
+    sig, n2 = memo[key][:2]
     e, p = seq.elem, seq.pos
     return SeqArr(n2, lambda kk: e(sig(kk)), seq.root, lambda kk: p(sig(kk)))
 
